@@ -539,7 +539,14 @@ def callbacks():
     def pp_cast(traces):
         guard('cast')
         return traces.astype('float32')
-    _CB.update({'rev_affine': pp_rev_affine, 'append_prod': pp_append_prod, 'cast': pp_cast})
+    def linear(tag, mul, add):
+        # two closures of one factory: distinct callables with the same __name__
+        @scared.preprocess
+        def pp_linear(traces):
+            guard(tag)
+            return traces.astype('float32') * mul + add
+        return pp_linear
+    _CB.update({'rev_affine': pp_rev_affine, 'append_prod': pp_append_prod, 'cast': pp_cast, 'lin_a': linear('lin_a', 2, 0), 'lin_b': linear('lin_b', 1, 3)})
     return _CB
 
 
@@ -552,6 +559,12 @@ def pure_chain(names, E):
             E = np.concatenate([t, t[:, :1] * t[:, -1:]], axis=1)
         elif nme == 'cast':
             E = E.astype('float32')
+        elif nme == 'lin_a':
+            E = E.astype('float32') * 2 + 0
+        elif nme == 'lin_b':
+            E = E.astype('float32') * 1 + 3
+        else:
+            raise KeyError(nme)
     return E
 
 
@@ -624,6 +637,10 @@ def generate(prop, seed, tier):
     if m >= 3 and rng.stream(seed, 'frame2').random() < 0.12:
         frame = ['list', rng.stream(seed, 'frame3').choice([[2, 0, 1], [1, 2, 0], [m - 1, 0, 1, 0]])]
     chain = r.choice([[], [], [], ['cast'], ['rev_affine'], ['rev_affine', 'append_prod'], ['append_prod']])
+    c2 = rng.stream(seed, 'chain2')
+    if c2.random() < 0.12:
+        # the same callable twice / two callables sharing a name
+        chain = c2.choice([['rev_affine', 'rev_affine'], ['append_prod', 'append_prod'], ['lin_a', 'lin_b'], ['lin_b', 'rev_affine', 'lin_a']])
     faulty = fr.random() < 0.5
     scn = {'prop': 'C09', 'engine': 'ttest', 'seed': seed, 'precision': r.choice(['float32', 'float64']),
            'tdtype': r.choice(['uint8', 'uint8', 'float32', 'int16'] + (['int16', 'float64', 'int8'] if thorough else [])),
